@@ -59,6 +59,22 @@ def typed_api_commands(T, rng):
     return out
 
 
+def wire_bytes(text):
+    """the bytes the library itself puts on the wire for a command text (its own write path: encoding, error handling, terminator)"""
+    from ynca.connection import YncaProtocol
+
+    class _T:
+        def __init__(self):
+            self.data = b""
+
+        def write(self, b):
+            self.data += bytes(b)
+    p = YncaProtocol()
+    p.transport = _T()
+    p.write_line(text)
+    return p.transport.data
+
+
 ALPH = list("@:=?UpDown 0123456789.-+") + ["é", "\t", "MAIN", "VOL", "SYS", "PWR", "ZONE2", "Up", "Down", " dB", "INPNAME", "SCENENAME", "PLAYBACK", "Play"]
 
 
@@ -87,7 +103,15 @@ def run(ctx: core.Ctx):
     stores.append(("(minimal built-in store)", None, [("SYS", "MODELNAME", "ModelName"), ("SYS", "VERSION", "Version"), ("MAIN", "AVAIL", "Not ready"), ("MAIN", "VOL", "0.0"),
                                                       ("MAIN", "ZONENAME", "MainZone"), ("ZONE2", "AVAIL", "Not ready"), ("ZONE2", "ZONENAME", "Zone2Name")]))
     for rec, path, pairs in stores:
-        for stream, lines in (("typed-api", api_cmds), ("random", [random_line(rng, T) for _ in range(nrand)])):
+        shuffled = list(api_cmds)
+        rng.shuffle(shuffled)
+        streams = [("typed-api", api_cmds), ("typed-api-shuffled", shuffled if thorough else shuffled[:len(shuffled) // 2]), ("random", [random_line(rng, T) for _ in range(nrand)])]
+        if thorough:
+            for _ in range(4):
+                sh = list(api_cmds)
+                rng.shuffle(sh)
+                streams.append(("typed-api-shuffled", sh))
+        for stream, lines in streams:
             real = srv.RealServer(path, pairs)
             ops = (srv.model_ingest_ops(path)[:-1] if path else ["reset"] + [f"add {core.hx(s)} {core.hx(f)} {core.hx(v)}" for s, f, v in pairs])
             n0 = len(ops)
@@ -95,7 +119,8 @@ def run(ctx: core.Ctx):
             done = []
             for line in lines:
                 before_up = None
-                out, exc = real.command(line)
+                # typed-API commands travel as the bytes the library's own write path produces for them
+                out, exc = real.command(wire_bytes(line) if stream.startswith("typed-api") else line)
                 ctx.case((rec, line))
                 ctx.count("stream:" + stream)
                 done.append(line)
@@ -142,6 +167,34 @@ def run(ctx: core.Ctx):
                         "random / adversarial lines, against a handler loaded from each of the 12 recordings and the built-in minimal store; Up/Down symmetry on every stored "
                         "non-volume function; a case = (store, line); non-trivial = distinct ones")
     ctx.cov["disagreements_model_vs_impl"] = len(disagreements)
+    if disagreements and not ctx.violations:
+        # extended search for a concrete failing input: the server no longer behaves like its model around these commands — many short
+        # sessions of typed-API commands for the subunits involved, in random order, against the stores involved
+        import re as _re
+        tried = 0
+        for d in disagreements[:4]:
+            m = _re.match(r"@([^:]+):", d["command"])
+            su = m.group(1) if m else None
+            pool_ = [c for c in api_cmds if su is None or c.startswith(f"@{su}:") or c.startswith("@SYS:")]
+            path = next((p_ for r_, p_, _ in stores if r_ == d["recording"]), None)
+            pairs = next((q_ for r_, _, q_ in stores if r_ == d["recording"]), None)
+            for _ in range(60):
+                real = srv.RealServer(path, pairs)
+                seq = [rng.choice(pool_) for _ in range(rng.randint(2, 12))] + [d["command"]]
+                done = []
+                for line in seq:
+                    out, exc = real.command(wire_bytes(line))
+                    done.append(line)
+                    tried += 1
+                    if exc is not None:
+                        ctx.violation(f"{d['recording']}: after {done[:-1]!r} the command {line!r} raised {type(exc).__name__}: {exc} -> the server drops the session",
+                                      {"recording": d["recording"], "command": line, "previous": done[:-1]}, {"kind": "crash", "exc": type(exc).__name__, "site": str(exc)[:30]})
+                        break
+                if ctx.violations:
+                    break
+            if ctx.violations:
+                break
+        ctx.count("extended_search_commands", tried)
     if disagreements and not ctx.violations:
         ctx.correspondence_broken("L6 server model vs ynca/server.py", {"count": len(disagreements), "first": disagreements[0]})
     ctx.assumptions += ["lines are valid UTF-8 text (undecodable bytes are outside the claim)", "socketserver plumbing is not modelled"]
